@@ -32,6 +32,7 @@ class RngSeam:
         self.seed = 0
         self._rs = np.random.RandomState(0)
         self.calls = 0
+        self._k = 0
         self.values = 0
         self._saved = {}
 
@@ -42,6 +43,7 @@ class RngSeam:
         self.behaviour = behaviour
         self.seed = int(seed) % (2**32)
         self._rs = np.random.RandomState(self.seed)
+        self._k = 0  # draws since the behaviour was set: a draw is a pure function of (behaviour, seed, k)
 
     def perturb(self, n: int, reseed=None):
         """Prior RNG history: somebody else in the process used / reseeded the global RNG."""
@@ -72,12 +74,13 @@ class RngSeam:
             out[1::2] = ONE_MINUS
         elif b == "spike":
             out = np.zeros(n)
-            out[(self.seed + self.calls) % n] = ONE_MINUS
+            out[(self.seed + self._k) % n] = ONE_MINUS
         elif b == "ramp":
             out = np.arange(n, dtype=float) / n
         else:  # pragma: no cover
             raise ValueError(b)
         self.calls += 1
+        self._k += 1
         self.values += n
         if self.counters is not None:
             self.counters.hit("rng:" + b)
